@@ -41,7 +41,9 @@ def write_cfg(path, n, opt=(), eq=(), flags=(0,), lock=(1,), tin=(2,), tout=(2,)
             f.write("  CheckLub = %s\n" % ("TRUE" if lub else "FALSE"))
         else:
             f.write('  Kind = "%s"\n  Stage = %s\n' % (kind, "TRUE" if stage else "FALSE"))
-        f.write("INVARIANTS %s\nCHECK_DEADLOCK FALSE\n" % " ".join(invariants))
+        if invariants:
+            f.write("INVARIANTS %s\n" % " ".join(invariants))
+        f.write("CHECK_DEADLOCK FALSE\n")
 
 
 PAIR = ["Idempotent", "Commutative", "Monotone", "Groupings", "FailsIffPairwise", "KeepsEverything", "Lub"]
@@ -49,7 +51,8 @@ MULTI = ["Groupings", "FailsIffPairwise", "KeepsEverything"]
 
 
 def lattice_runs(quick):
-    """(name, kwargs, expected number of states) of the model-checking runs of PcztLattice."""
+    """(name, kwargs) of the model-checking runs of PcztLattice. Every universe from which cases are
+    emitted for the harness (case_runs) is contained in one of these."""
     runs = [
         # pairs: every theorem incl. least-upper-bound, slots x lock x eq
         ("pair_slots", dict(n=2, opt=("o1", "o2"), eq=("e1",), lock=(0, 1, 2), invariants=PAIR, lub=True)),
@@ -57,21 +60,23 @@ def lattice_runs(quick):
         ("pair_flags", dict(n=2, flags=range(256), invariants=PAIR[:-1])),
         ("pair_flags_lub", dict(n=2, flags=FLAGS_SMALL, lock=(0, 1), invariants=PAIR, lub=True)),
         # pairs: lists x modifiable bits x bsk, with the least-upper-bound theorem
-        ("pair_lists", dict(n=2, flags=(0, 1, 2, 3, 128, 129, 130, 131), tin=(1, 2), tout=(1, 2), act=(1, 2),
-                            bsk=(0, 1, 2), invariants=PAIR, lub=True)),
+        ("pair_lists", dict(n=2, flags=(0, 1, 128, 129), tin=(1, 2), act=(1, 2), bsk=(0, 1, 2), invariants=PAIR, lub=True)),
         # triples
-        ("tri_opt", dict(n=3, opt=("o1", "o2"), lock=(0, 1), invariants=MULTI)),
+        ("tri_opt", dict(n=3, opt=("o1", "o2"), invariants=MULTI)),
         ("tri_eq", dict(n=3, opt=("o1",), eq=("e1",), lock=(0, 1, 2), invariants=MULTI)),
         ("tri_flags", dict(n=3, flags=FLAGS_SMALL if quick else FLAGS_64, invariants=MULTI)),
         ("tri_lists_t", dict(n=3, flags=(0, 1, 2, 3), tin=(1, 2), tout=(1, 2), invariants=MULTI)),
-        ("tri_lists_s", dict(n=3, flags=(0, 128), act=(1, 2), bsk=(0, 1, 2), opt=("o1",) if not quick else (),
-                             invariants=MULTI)),
+        ("tri_lists_s", dict(n=3, flags=(0, 128), act=(1, 2), bsk=(0, 1, 2), invariants=MULTI)),
         # four copies, all 120 groupings
-        ("four", dict(n=4, opt=("o1",), flags=(3, 131), lock=(0, 1) if not quick else (1,), invariants=MULTI)),
+        ("four", dict(n=4, opt=("o1",), flags=(131,) if quick else (3, 131), invariants=MULTI)),
     ]
     if not quick:
+        runs.append(("pair_lists_big", dict(n=2, flags=(0, 1, 2, 3, 128, 129, 130, 131), tin=(1, 2), tout=(1, 2), act=(1, 2),
+                                            bsk=(0, 1, 2), invariants=PAIR, lub=True)))
         runs.append(("tri_slots_big", dict(n=3, opt=("o1", "o2"), eq=("e1",), lock=(0, 1, 2), invariants=MULTI)))
-        runs.append(("four_flags", dict(n=4, flags=(0, 1, 4, 5, 128, 133, 8), opt=("o1",), invariants=MULTI)))
+        runs.append(("tri_lists_mixed", dict(n=3, flags=(0, 1, 128, 129), tin=(1, 2), act=(1, 2), bsk=(0, 1), opt=("o1",),
+                                             invariants=MULTI)))
+        runs.append(("four_flags", dict(n=4, flags=(0, 1, 4, 5, 128, 133, 8), invariants=MULTI)))
     return runs
 
 
@@ -120,7 +125,8 @@ def emit_cases(ctx, d, path, only=None):
             if only and kind not in only:
                 continue
             cfg = "Cases_%s.cfg" % kind
-            write_cfg(os.path.join(d, cfg), kind=kind, invariants=("Groupings",), **kw)
+            # no invariant here: the theorems were checked on these universes by model_check
+            write_cfg(os.path.join(d, cfg), kind=kind, invariants=(), **kw)
             r = lib.tlc(ctx, d, "MC_PcztCases", cfg, workers=1, timeout=2400, coverage=False)
             lib.account_tlc(ctx, r)
             for t in r.prints("TREES"):
